@@ -161,3 +161,57 @@ let table_of (l : sexp list) : (int, int list) Hashtbl.t =
   let t = Hashtbl.create 16 in
   List.iter (function L (k :: vs) -> Hashtbl.replace t (int_of_string (atom k)) (List.map (fun v -> int_of_string (atom v)) vs)
                     | _ -> failwith "table") l; t
+
+(* ---- unicode class tables: sorted disjoint ranges, binary search ---- *)
+let mk_table (l : sexp list) : int array * int array =
+  let los = Array.of_list (List.map (function L [a; _] -> int_of_string (atom a) | _ -> failwith "range") l) in
+  let his = Array.of_list (List.map (function L [_; b] -> int_of_string (atom b) | _ -> failwith "range") l) in
+  (los, his)
+let in_table ((los, his) : int array * int array) (c : int) : bool =
+  let lo = ref 0 and hi = ref (Array.length los - 1) and res = ref false in
+  while not !res && !lo <= !hi do
+    let mid = (!lo + !hi) / 2 in
+    if c < los.(mid) then hi := mid - 1
+    else if c > his.(mid) then lo := mid + 1
+    else res := true
+  done; !res
+let t_printable = ref ([||], [||])
+let t_space = ref ([||], [||])
+let t_word = ref ([||], [||])
+let t_linebreak = ref ([||], [||])
+let printable (c : n) = in_table !t_printable (int_of_n c)
+let is_space_u (c : n) = in_table !t_space (int_of_n c)
+let is_word_u (c : n) = in_table !t_word (int_of_n c)
+let is_linebreak (c : n) = in_table !t_linebreak (int_of_n c)
+
+(* ---- values ---- *)
+let cls_of_sexp = function
+  | L (t :: name) -> { cn_name = cps name; cn_tok = n_of_int (int_of_string (atom t)) }
+  | _ -> failwith "cls"
+let rec val_of (x : sexp) : pyval =
+  match x with
+  | L [A "int"; z] -> VInt (zint z)
+  | L [A "bool"; b] -> VBool (boolv b)
+  | A "none" -> VNone
+  | A "ellipsis" -> VEllipsis
+  | L (A "float" :: r) -> VFloat (cps r)
+  | A "inf" -> VInf | A "neginf" -> VNegInf | A "nan" -> VNan
+  | L (A "str" :: s) -> VStr (cps s)
+  | L (A "bytes" :: s) -> VBytes (cps s)
+  | L (A "list" :: l) -> VList (List.map val_of l)
+  | L (A "tuple" :: l) -> VTuple (List.map val_of l)
+  | L (A "set" :: l) -> VSet (List.map val_of l)
+  | L (A "frozenset" :: l) -> VFrozenset (List.map val_of l)
+  | L [A "dict"; L kvs; L order] ->
+      VDict (List.map (function L [k; v] -> (val_of k, val_of v) | _ -> failwith "kv") kvs,
+             List.map (fun i -> nat_of_int (int_of_string (atom i))) order)
+  | L [A "sub"; c; v] -> VSub (cls_of_sexp c, val_of v)
+  | L [A "commented"; v; L c] -> VCommented (val_of v, cps c)
+  | L [A "trailing"; v; L c] -> VTrailing (val_of v, cps c)
+  | L [A "call"; f; L args; L kwargs] ->
+      VCall (cls_of_sexp f, List.map val_of args,
+             List.map (function L [L k; v] -> (cps k, val_of v) | _ -> failwith "kw") kwargs)
+  | L [A "path"; c; L s] -> VPath (cls_of_sexp c, cps s)
+  | L (A "repr" :: r) -> VRepr (cps r)
+  | _ -> failwith "val"
+let optz = function A "none" -> None | x -> Some (zint x)
